@@ -125,6 +125,9 @@ Definition suffix_of (s : string) : string :=   (* text after the last '.' *)
 Definition is_shutdown_class (cl : string) : bool :=
   mem cl ["protoDone"; "muxDone"; "recvDone"; "sendDone"; "protoStop"; "connDone"; "connClosed"].
 
+Definition closer_live (after : string) : bool :=
+  (is_shutdown_class after && negb (String.eqb after "protoStop")) || String.eqb after "deferred".
+
 (* the signal an alternative (op, channel, class) stands for, in context ctx of file f.
    None = this alternative can never release the point at shutdown. *)
 Definition alt_signal (cls : list closer) (sol : string -> string -> string -> string -> string -> bool)
@@ -140,9 +143,12 @@ Definition alt_signal (cls : list closer) (sol : string -> string -> string -> s
     if String.eqb ctx "handler" && (String.eqb cl "protoDone" || String.eqb cl "recvDone" || String.eqb cl "sendDone")
     then None else Some cl
   else (* a data channel: a RECEIVE is released when a goroutine closes the channel after a shutdown signal *)
-    if String.eqb op "recv" || String.eqb op "range" then
+    (* a sync.Cond.Wait is released when a goroutine Signals/Broadcasts the condition on its way out:
+       in a deferred call, or after a plain receive of a live shutdown signal.  A waker that runs
+       only on the data path (after each handled message) or only inside Protocol.Stop is no guard. *)
+    if String.eqb op "recv" || String.eqb op "range" || String.eqb op "condwait" then
       match find (fun c => String.eqb (c_file c) f && String.eqb (suffix_of (c_chan c)) (suffix_of ch)
-                           && is_shutdown_class (c_after c)) cls with
+                           && closer_live (c_after c)) cls with
       | Some c => Some ("closed:" ^^ f ^^ ":" ^^ suffix_of ch)
       | None => None
       end
@@ -241,7 +247,8 @@ Definition proto_system (cls : list closer) (sol : solf) (all : list point) (f :
          {| th_name := nm;
             th_points := map (bp_of' cls sol) (filter (fun p => mem (p_func p) fns) eng
                                               ++ (if String.eqb nm "engine:recvLoop" then handler else []));
-            th_raises := rs |}) engine_threads
+            th_raises := rs ++ flat_map (fun fn => go_raises (filter (fun c => closer_live (c_after c)) cls)
+                                                             "protocol/protocol.go" fn) fns |}) engine_threads
   ++ map (fun fn => {| th_name := f ^^ ":" ^^ fn;
                        th_points := map (bp_of' cls sol) (filter (fun p => String.eqb (p_func p) fn) others);
                        th_raises := go_raises cls f fn |}) (funcs_of others).
